@@ -158,14 +158,21 @@ fn a_lax_headers_sll(c: &Ctx, b: &[u8], _: u16) -> Res {
 }
 
 // ---- IP boundary functions (twelve copies) ----
-fn ip_slice_res(c: &Ctx, s: &IpSlice) -> Res {
+fn ip_slice_res(c: &Ctx, s: &IpSlice, whole: &[u8]) -> Res {
     let mut r = Res::new();
     match s {
         IpSlice::Ipv4(i) => ipv4_layers(c, &mut r, &i.header(), &i.extensions(), ip_pay(c, i.payload())),
         IpSlice::Ipv6(i) => ipv6_layers(c, &mut r, &i.header(), i.extensions(), ip_pay(c, i.payload())),
     }
-    // conversion named in C02: must not panic on an accepted slice
-    touch(&s.to_header());
+    // conversion named in C02: must not panic on an accepted slice; and it is the value the struct decoder returns for the same bytes
+    // (where that decoder takes the whole chain: a header kind that no longer fits the struct ends struct decoding early, DocExtSlotFull)
+    let th = s.to_header();
+    touch(&th);
+    if let Ok((hh, pp)) = IpHeaders::from_slice(whole) {
+        if pp.ip_number == s.payload().ip_number && pp.payload.len() == s.payload().payload.len() && hh != th {
+            r.tohdr.push("ip".to_string());
+        }
+    }
     // convenience accessors of the IP boundary value and of its header view
     let oct = |a: std::net::IpAddr| -> Vec<i64> { match a { std::net::IpAddr::V4(x) => x.octets().iter().map(|v| *v as i64).collect(), std::net::IpAddr::V6(x) => x.octets().iter().map(|v| *v as i64).collect() } };
     let h = s.header();
@@ -191,7 +198,7 @@ fn a_ipslice(c: &Ctx, b: &[u8], _: u16) -> Res {
     let x = IpSlice::from_slice(b);
     touch(&x);
     match x {
-        Ok(s) => ip_slice_res(c, &s),
+        Ok(s) => ip_slice_res(c, &s, b),
         Err(e) => {
             touch_d(&e);
             Res::err(e.errp())
